@@ -398,7 +398,7 @@ def settings(ctx, pid="C01"):
         "gen": 120 if t else 6,
         "max_in": 3,
         "max_inputs": 10 if t else 5,
-        "max_choices": 4 if t else 2,
+        "max_choices": 3 if t else 1,     # random ones, in addition to the all-min, all-max and all-equal combinations
         "maxcalls": 3 if t else 2,
         "fuel": 400,
         "group": 6,
